@@ -21,8 +21,10 @@ Also here, written only from the RFCs (no paramiko code is called):
                                   every packet (RFC 4253 section 6, RFC 5647,
                                   OpenSSH PROTOCOL for -etm / -gcm).
 """
+import errno
 import hashlib
 import hmac as _hmac
+import socket
 import struct
 import types
 import zlib
@@ -161,6 +163,23 @@ class MemSock:
         self.recvs = 0
         self.eofs = 0
         self.closed = False
+        # hiccup(kind) -> None | "timeout" | "eagain": what a socket with a timeout set may raise
+        # instead of transferring data; never twice in a row, so progress is guaranteed
+        self.hiccup = None
+        self._hic_last = False
+        self.hiccups = 0
+
+    def _maybe_hiccup(self, kind):
+        if self.hiccup is None or self._hic_last:
+            self._hic_last = False
+            return
+        h = self.hiccup(kind)
+        if h:
+            self._hic_last = True
+            self.hiccups += 1
+            if h == "timeout":
+                raise socket.timeout("timed out")
+            raise socket.error(errno.EAGAIN, "Resource temporarily unavailable")
 
     def settimeout(self, t):
         pass
@@ -169,6 +188,7 @@ class MemSock:
         return None
 
     def send(self, data):
+        self._maybe_hiccup("send")
         n = len(data)
         if self.accept is not None and n > 1:
             n = max(1, min(n, int(self.accept(n))))
@@ -189,6 +209,7 @@ class MemSock:
         if avail <= 0 or n <= 0:
             self.eofs += 1
             return b""
+        self._maybe_hiccup("recv")
         k = min(n, avail)
         if self.cuts is not None:
             cuts = self.cuts
@@ -361,11 +382,25 @@ class Receiver:
         # initial kex done on transport and packetizer
         t._parse_newkeys(msg)
 
-    def drain(self, data, frag=None, cuts=None, limit=None):
+    def drain(self, data, frag=None, cuts=None, limit=None, banner=None, hiccup=None):
         """Feed `data`; decode until EOF ("waiting"), an exception ("fails") or
-        `limit` messages.  Returns the outcome tuple."""
+        `limit` messages.  Returns the outcome tuple.  With `banner` (bytes
+        ending in LF) the stream starts with an identification line that is
+        read through the real `readline` first, so that whatever it over-read
+        sits in the packetizer's remainder buffer when packets start."""
+        if banner:
+            data = banner + data
+            if cuts:
+                cuts = [c + len(banner) for c in cuts]
         self.sock.load(data, frag=frag, cuts=cuts)
+        self.sock.hiccup = hiccup
         pk = self.t.packetizer
+        if banner:
+            try:
+                self.banner_line = pk.readline(30)
+            except Exception as e:
+                self.outcome = ("exc", e)
+                return self.outcome
         aead_track = True
         while True:
             if limit is not None and len(self.delivered) >= limit:
@@ -405,12 +440,13 @@ class Bench:
     own)."""
 
     def __init__(self, rng, cipher, mac, comp="none", sender_role="client", strict=False,
-                 hash_name="sha256", accept=None, seq0=0, sid=None, tap=True):
+                 hash_name="sha256", accept=None, seq0=0, sid=None, hiccup=None):
         self.rng = rng
         self.rec = vtap.Recorder()
         self.klog = []
         self.sock = MemSock()
         self.sock.accept = accept
+        self.sock.hiccup = hiccup
         self.tap_cls = make_bench_tap(self.rec, "tx")
         self.t = paramiko.Transport(self.sock, packetizer_class=self.tap_cls)
         t = self.t
